@@ -243,6 +243,8 @@ pub struct Cli {
     pub no_findings: bool,
     pub determinism: bool,
     pub dump_hashes: Option<String>,
+    /// first run index of the batch (to re-run one index of a longer batch)
+    pub from: u64,
 }
 
 pub fn parse_cli(args: &[String]) -> Result<Cli, String> {
@@ -260,6 +262,7 @@ pub fn parse_cli(args: &[String]) -> Result<Cli, String> {
         no_findings: false,
         determinism: false,
         dump_hashes: None,
+        from: 0,
     };
     if let Ok(t) = std::env::var("VERIF_TIER") {
         cli.thorough = t == "thorough";
@@ -286,6 +289,7 @@ pub fn parse_cli(args: &[String]) -> Result<Cli, String> {
             "--no-findings" => cli.no_findings = true,
             "--determinism" => cli.determinism = true,
             "--dump-hashes" => cli.dump_hashes = Some(val()?),
+            "--from" => cli.from = val()?.parse().map_err(|_| "bad --from")?,
             s if !s.starts_with("--") && cli.property.is_empty() => cli.property = s.to_string(),
             s => return Err(format!("unknown argument {}", s)),
         }
@@ -476,11 +480,29 @@ pub fn main_with(checks: &[&dyn Check], plan: &dyn Fn(&str) -> BatchPlan, args: 
         0
     };
 
-    let next = AtomicU64::new(0);
+    let next = AtomicU64::new(cli.from);
+    let total_runs = total_runs + cli.from;
     let recs: Mutex<Vec<RunRec>> = Mutex::new(Vec::new());
     let violations_seen = AtomicUsize::new(0);
+    // watchdog: a run that never ends (a livelock under the simulated clock) must not hang the
+    // batch: it is a harness-level failure (exit 2) naming the run, never a verdict
+    let limit_s: u64 = std::env::var("VERIF_RUN_TIMEOUT_S").ok().and_then(|v| v.parse().ok()).unwrap_or(180);
+    let in_flight: Mutex<BTreeMap<u64, (u64, Instant)>> = Mutex::new(BTreeMap::new());
+    let finished = std::sync::atomic::AtomicBool::new(false);
     std::thread::scope(|s| {
-        for _ in 0..cli.threads.max(1) {
+        s.spawn(|| {
+            while !finished.load(Ordering::Relaxed) {
+                std::thread::sleep(std::time::Duration::from_millis(500));
+                let g = in_flight.lock().unwrap();
+                for (idx, (seed, since)) in g.iter() {
+                    if since.elapsed().as_secs() > limit_s {
+                        eprintln!("HARNESS-ERROR: run {} seed {} did not finish within {} s of wall-clock time (livelock under the simulated clock?)", idx, seed, limit_s);
+                        std::process::exit(2);
+                    }
+                }
+            }
+        });
+        let workers: Vec<_> = (0..cli.threads.max(1)).map(|_| {
             s.spawn(|| {
                 install_panic_hook();
                 let mut local: Vec<RunRec> = Vec::new();
@@ -497,15 +519,21 @@ pub fn main_with(checks: &[&dyn Check], plan: &dyn Fn(&str) -> BatchPlan, args: 
                     let c = mine[k];
                     let seed = derive_seed(cli.seed, c.property(), c.name(), i);
                     let case = c.generate(seed, cli.thorough);
+                    in_flight.lock().unwrap().insert(i, (seed, Instant::now()));
                     let outcome = guarded_execute(c, &case, &tol);
+                    in_flight.lock().unwrap().remove(&i);
                     if outcome.violation.is_some() {
                         violations_seen.fetch_add(1, Ordering::Relaxed);
                     }
                     local.push(RunRec { idx: i, check_i: k, seed, outcome });
                 }
                 recs.lock().unwrap().extend(local);
-            });
+            })
+        }).collect();
+        for w in workers {
+            let _ = w.join();
         }
+        finished.store(true, Ordering::Relaxed);
     });
     let mut recs = recs.into_inner().unwrap();
     recs.sort_by_key(|r| r.idx);
